@@ -9,12 +9,20 @@ ID = "C05"
 HMODULE = "H_C05"
 FUNCTIONAL = True  # the property states output == formula; a disagreement is a failing input
 RULE = ("random PWLCalibration layers (2-6 strictly increasing dyadic keypoints with unequal gaps, units 1-3, "
-        "single-column and per-unit inputs, cyclic, split_outputs, impute_missing by value / by is_missing tensor "
+        "single-column and per-unit inputs, cyclic (including cyclic layers with exactly 2 keypoints, i.e. a one-row "
+        "kernel, built with kernel_initializer='zeros'), split_outputs, impute_missing by value / by is_missing tensor "
+        "(flags 0, 1 and non-binary values 0.25, 0.5, 2, -0.5) "
         "with learned or fixed missing output, tensor and list input forms, 'fixed' keypoints in float64 and "
         "'learned_interior' keypoints (initial and assigned logits) in float32, dyadic kernels of five classes) "
-        "called on a batch mixing inputs ON keypoints, between, just/far outside, equal to missing_input_value; "
+        "called on a batch mixing inputs ON keypoints, between, just/far outside (up to +-1e6), equal to "
+        "missing_input_value; rejected calls (ValueError on the layer, None in the model): [x, is_missing] or [x] "
+        "without impute_missing, impute_missing without a source, wrong input columns, and an is_missing tensor "
+        "whose shape differs from the inputs' ((batch,1) flags against (batch,units) inputs and vice versa, one "
+        "column more or less, fewer rows); "
         "plus CategoricalCalibration layers (1-6 buckets, units 1-3, default_input_value in/out of range or None, "
-        "int32/int64/uint8/float inputs, split_outputs) on in-range categories and the default value. The Coq model "
+        "int32/int64/uint8/float inputs, split_outputs) on in-range categories and the default value; float inputs "
+        "carry fractions on either side of zero (2.875 -> 2, -0.5 -> bucket 0 or the default 0, -1.5 -> the default "
+        "-1, default + 0.5 -> the default: truncation toward zero). The Coq model "
         "evaluates the same calls and keypoints_inputs()/keypoints_outputs(); independently the property's own "
         "formula (interpolation through (keypoint, cumulative sum), row lookup) is evaluated in exact fractions on "
         "the implementation's outputs, and the layer is called on its own reported keypoints. Non-trivial = PWL case "
@@ -39,8 +47,11 @@ LIMITS = [
     "current tree (compute_interpolation_weights concatenates a float32 tf.ones column with float64 weights); the "
     "learned path is then tied in float32 with tolerance 1e-5 (measured error <= 1e-6); once float64 works the "
     "same cases run in float64 at 1e-9 automatically (REQUIRE_LEARNED_F64 turns the fallback off)",
-    "categorical indices outside [0, num_buckets) other than default_input_value are outside the property and "
-    "are not generated (the model returns 0 for them, as the one-hot code does)",
+    "categorical indices that are, AFTER truncation toward zero, outside [0, num_buckets) and not "
+    "default_input_value are outside the property and are not generated (the model returns 0 for them, as the "
+    "one-hot code does); negative fractions are generated only where truncation lands on bucket 0 or on the default",
+    "rejected calls are generated for fixed-keypoint layers only; an is_missing tensor of the right shape but another "
+    "dtype, and lists of more than two tensors, are not generated",
 ]
 
 GAPS = [0.25, 0.5, 1.0, 1.5, 2.0, 3.0]
@@ -79,7 +90,9 @@ def _gen_pwl(rng):
     ks.append(ks[-1] + (2.0 ** -22 if j == tiny_at else rng.choice(GAPS)))
   units = rng.choice([1, 1, 2, 3])
   cols = 1 if units == 1 else rng.choice([1, units])
-  cyclic = n >= 3 and rng.random() < 0.3  # the default initializer rejects a one-row kernel
+  # a cyclic layer with exactly 2 keypoints has a one-row kernel (bias only; the closing height is -sum([]) = 0);
+  # the default initializer rejects that shape, so such layers are built with kernel_initializer="zeros"
+  cyclic = rng.random() < (0.3 if n >= 3 else 0.4)
   klass = rng.choice(["random", "random", "increasing", "decreasing", "flat", "spike"])
   mag = 4.0 if learned else 8.0
   kernel = _kernel(rng, n - (1 if cyclic else 0), units, klass, mag)
@@ -124,19 +137,24 @@ def _gen_pwl(rng):
         e = ["v", miv]
       elif r < 0.9:
         e = ["off", rng.randrange(n), rng.choice([-0.125, 0.125]), uref]
-      else:
+      elif r < 0.96:
         e = ["v", tfimpl.dy(rng, -8, 8)]
+      else:
+        e = ["v", rng.choice([1e6, -1e6, 1048576.0, -999999.5])]   # exact in float32 and float64
       row.append(e)
     rows.append(row)
   ms = None
   if form == "list2":
-    ms = [[rng.choice([0.0, 0.0, 1.0, 1.0, 0.5, 0.25]) for _ in range(cols)] for _ in range(batch)]
+    # is_missing is a float tensor mixed in linearly: values other than 0/1 (also outside [0, 1]) are defined
+    ms = [[rng.choice([0.0, 0.0, 0.0, 1.0, 1.0, 1.0, 0.5, 0.25, 0.25, 2.0, -0.5]) for _ in range(cols)]
+          for _ in range(batch)]
   d = dict(kind="pwl", learned=learned, ks=ks, units=units, cols=cols, cyclic=cyclic, kernel=kernel,
            impute=impute, miv=miv, mov=mov, mow=mow, split=split, form=form, logits=logits, dtype=ldtype,
            rows=rows, ms=ms, kclass=klass, err=None)
   # a few rejected calls (fixed keypoints only)
-  if not learned and rng.random() < 0.04:
-    e = rng.choice(["flag_without_impute", "impute_without_source", "bad_cols"])
+  if not learned and rng.random() < 0.12:
+    e = rng.choice(["flag_without_impute", "impute_without_source", "bad_cols", "ms_wrong_cols", "ms_wrong_cols",
+                    "ms_wrong_batch", "list1_without_impute"])
     if e == "flag_without_impute":
       d.update(impute=False, miv=None, mov=None, mow=[], form="list2",
                ms=[[0.0] * cols for _ in range(batch)], err=e)
@@ -144,6 +162,21 @@ def _gen_pwl(rng):
       d.update(impute=True, miv=None, form="tensor", ms=None, err=e)
       if d["mov"] is None and not d["mow"]:
         d["mow"] = [0.5] * units
+    elif e == "list1_without_impute":
+      # [x] as a one-element list, layer not configured for missing values
+      d.update(impute=False, miv=None, mov=None, mow=[], form="list1", ms=None, err=e)
+    elif e in ("ms_wrong_cols", "ms_wrong_batch"):
+      # [x, is_missing] with an is_missing tensor whose shape differs from the inputs' shape
+      d.update(impute=True, form="list2", err=e)
+      if d["mov"] is None and not d["mow"]:
+        d["mow"] = [0.5] * units
+      if e == "ms_wrong_batch":
+        mrows, mcols = batch - rng.choice([1, 2]), cols
+      elif cols > 1:
+        mrows, mcols = batch, rng.choice([1, 1, cols - 1, cols + 1])   # (batch, 1) flags against (batch, units) inputs
+      else:
+        mrows, mcols = batch, (units if units > 1 and rng.random() < 0.6 else rng.choice([2, 3]))
+      d["ms"] = [[rng.choice([0.0, 1.0]) for _ in range(mcols)] for _ in range(mrows)]
     else:
       d.update(units=3, cols=2, kernel=_kernel(rng, n - (1 if cyclic else 0), 3, "random", 8.0),
                rows=[[["v", 0.5], ["v", 1.0]] for _ in range(batch)], form="tensor" if form == "list2" else form,
@@ -179,8 +212,12 @@ def _gen_cat(rng):
         v = 0
       else:
         v = rng.randrange(nb)
-      if dtype.startswith("float") and v >= 0 and rng.random() < 0.3 and v != default:
-        v = v + rng.choice([0.5, 0.25, 0.875])  # truncated toward zero by the cast
+      if dtype.startswith("float") and rng.random() < 0.45:
+        # tf.cast(float -> int32) truncates TOWARD ZERO: 2.875 -> 2, -0.5 -> 0 (bucket 0, or the default when
+        # default_input_value == 0), -1.5 -> -1 (the default when default_input_value == -1); applies to the
+        # default value itself as well (default + 0.5 is the default)
+        f = rng.choice([0.5, 0.25, 0.875])
+        v = v + f if v > 0 else (v - f if v < 0 else rng.choice([f, -f, -f]))
       row.append(v)
     rows.append(row)
   return dict(kind="cat", nb=nb, units=units, cols=cols, dtype=dtype, ldtype=rng.choice(["float32", "float64"]),
@@ -260,7 +297,8 @@ def _eval_pwl(tf, tfl, d):
       input_keypoints=d["ks"], units=units, dtype="float32" if f32 else "float64",
       is_cyclic=d["cyclic"], impute_missing=d["impute"], missing_input_value=d["miv"],
       missing_output_value=d["mov"], split_outputs=d["split"],
-      input_keypoints_type="learned_interior" if learned else "fixed")
+      input_keypoints_type="learned_interior" if learned else "fixed",
+      **({"kernel_initializer": "zeros"} if d["cyclic"] and n == 2 else {}))
   layer.build((None, cols))
   layer.kernel.assign(np.array(d["kernel"], dtype=dt))
   if d["impute"] and d["mov"] is None:
@@ -403,12 +441,13 @@ def _eval_pwl(tf, tfl, d):
   if d["err"]:
     klass = "pwl_rejected_" + d["err"]
   else:
-    klass = "pwl_%s_%s_%s_%s%s" % (
+    klass = "pwl_%s_%s_%s_%s%s%s" % (
         ("learned32" if f32 else "learned64") if learned else "fixed",
         "u1" if units == 1 else ("uN-1col" if cols == 1 else "uN-percol"),
-        "cyclic" if d["cyclic"] else "open",
+        ("cyclic2" if n == 2 else "cyclic") if d["cyclic"] else "open",
         ("miss" + ("val" if d["miv"] is not None and d["ms"] is None else "flag")) if d["impute"] else "nomiss",
-        "_split" if d["split"] and units > 1 else "")
+        "_split" if d["split"] and units > 1 else "",
+        "_1e6" if np.abs(x).max() >= 1e5 else "")
   return Case(d, coq=coq, pred_fail=fail, nontrivial=(between or n >= 3) and d["err"] is None, klass=klass,
               info={"impl_output": out, "inputs": x.tolist(), "keypoints_inputs": kp_in.tolist(),
                     "keypoints_outputs": kp_out.tolist()})
@@ -452,7 +491,8 @@ def _eval_cat(tf, tfl, d):
         cbool(d["split"]), cqm(d["rows"]), clist([cqm(m) for m in out]))
   klass = "cat%s_%s_%s_%s%s" % (
       ldtype[-2:], "u1" if units == 1 else ("uN-1col" if cols == 1 else "uN-percol"),
-      "float" if d["dtype"].startswith("float") else "int",
+      ("floatneg" if any(v < 0 and v != int(v) for r in d["rows"] for v in r) else "float")
+      if d["dtype"].startswith("float") else "int",
       "nodefault" if d["default"] is None else ("default-in" if 0 <= d["default"] < nb else "default-out"),
       "_split" if d["split"] and units > 1 else "")
   return Case(d, coq=coq, pred_fail=fail, nontrivial=nb >= 2, klass=klass, info={"impl_output": out})
